@@ -408,7 +408,7 @@ static void contig_stream_history(int thorough)
  * (right after the dictionary; somewhere else; ending inside the dictionary, i.e. overwriting its beginning like a ring buffer that wraps), LZ4_saveDict
  * (any size, possibly overlapping), LZ4_loadDict / LZ4_loadDictSlow (sizes 0..> 64 KB), LZ4_resetStream_fast.  Every block is also decoded by the real
  * decoder against the declared history (everything since the last reset / load, the loaded dictionary included). ---- */
-static u64 n_xs_attach, n_xs_attached_calls, n_xs_ops, n_xs_contig, n_xs_apart, n_xs_inside, n_xs_save, n_xs_load, n_xs_reset, n_xs_failed;
+static u64 n_xs_periodic, n_xs_attach, n_xs_attached_calls, n_xs_ops, n_xs_contig, n_xs_apart, n_xs_inside, n_xs_save, n_xs_load, n_xs_reset, n_xs_failed;
 static void xstream_history(int thorough)
 {
     enum { MAXO = 12 };
@@ -424,7 +424,7 @@ static void xstream_history(int thorough)
         const u8* qd = attached ? in->dictCtx->dictionary : dct; size_t qs = attached ? in->dictCtx->dictSize : ds; const u8* qE = qd + qs;      /* what the next block may usefully quote */
         if (kind < 68) {                                                       /* ---- compress ---- */
             static const size_t special[] = {0, 1, 3, 12, 13, 14, 4095, 4097, 65535, 65536, 65547, 70000};
-            size_t n = rndp(82) ? 20 + rndn(rndp(70) ? 1500 : (thorough ? 40000 : 9000)) : special[rndn(12)], j = 0; u8* src = NULL; int place = (int)rndn(100), bound, cap, acc = (int[]){1, 1, 1, 2, 7, 0, 70000}[rndn(7)], ret, tries;
+            size_t n = rndp(82) ? 20 + rndn(rndp(70) ? 1500 : (thorough ? 40000 : 9000)) : special[rndn(12)], j = 0; u8* src = NULL; int place = (int)rndn(100), bound, cap, acc = (int[]){1, 1, 1, 2, 7, 0, 70000}[rndn(7)], ret, tries, periodic = 0;
             u8* tmp = xalloc(n + 1); u8* dst; u8* cp;
             /* the content first (it may quote the dictionary and the declared history), then the place, then the bytes go there */
             while (j < n) { const char* p = pre[rndn(6)]; size_t l = strlen(p), m; if (l > n - j) l = n - j; memcpy(tmp + j, p, l); j += l; m = rndn(40); while (m-- && j < n) tmp[j++] = rndp(60) ? (u8)('0' + rndn(10)) : (u8)rnd(); if (j < n) tmp[j++] = '\n'; }
@@ -432,12 +432,16 @@ static void xstream_history(int thorough)
             if (n >= 16 && qs >= 8 && rndp(30)) { size_t l = 4 + rndn(12); if (l > qs) l = qs; if (l > n) l = n; memcpy(tmp + rndn((u32)(n - l + 1)), qE - l, l); }      /* the very end of the dictionary (a match running into the source) */
             if (n >= 8 && qs >= 8 && rndp(25)) memcpy(tmp, qE - 8, 8);
             if (n >= 16 && hl >= 16 && rndp(40)) { size_t from = rndn((u32)hl), l = 8 + rndn(200); if (l > n) l = n; if (from + l > hl) l = hl - from; memcpy(tmp + rndn((u32)(n - l + 1)), H + from, l); }
+            /* a block that goes on where the dictionary ends, periodically: ONE match that starts in the dictionary, runs to its end and continues for kilobytes
+             * in the block (external-dictionary mode), with a capacity that runs out on that very sequence */
+            if (qs >= 16 && n >= 64 && rndp(12)) { size_t L = 4 + rndn(qs < 64 ? (u32)qs - 4 : 60), q; for (q = 0; q < n; q++) tmp[q] = qE[(long)(q % L) - (long)L]; periodic = 1; place = 99; n_xs_periodic++; }
             if (place < 45 && dictInArena && E + n <= arena + A && !attached) { src = (u8*)E; n_xs_contig++; }
             else if (place < 62 && dictInArena && ds >= 8 && !attached) { size_t tail = rndp(30) ? 1 + rndn(6) : 1 + rndn((u32)ds - 1); const u8* se = E - tail; if (se >= arena + n) { src = (u8*)se - n; n_xs_inside++; } }
             for (tries = 0; !src && tries < 50; tries++) { u8* c = arena + rndn((u32)(A - n + 1)); if ((!ds || c + n <= dct || c >= E) && (!attached || c + n <= adS || c >= adE)) { src = c; n_xs_apart++; } }
             if (!src) { free(tmp); continue; }
             memcpy(src, tmp, n); free(tmp);
             bound = LZ4_compressBound((int)n); cap = rndp(88) ? bound : rndp(50) ? bound + (int)rndn(20) : (int)rndn((u32)bound + 1);
+            if (periodic && rndp(85)) cap = 1 + (int)rndn(rndp(50) ? 24 : 90);
             dst = xalloc((size_t)(cap > 0 ? cap : 0)); outs[nouts++] = dst; cp = xalloc(n + 1); memcpy(cp, src, n); copies[ncopies++] = cp;
             ret = LZ4_compress_fast_continue(st, (const char*)src, (char*)dst, (int)n, cap, acc); n_calls++; n_xs_ops++;
             nrec++; rec_int(&r, 0); rec_int(&r, (long long)(size_t)src); rec_bytes(&r, cp, n); rec_int(&r, acc); rec_int(&r, cap); rec_int(&r, ret); rec_bytes(&r, dst, ret > 0 && ret <= cap ? (size_t)ret : 0);
@@ -561,7 +565,7 @@ int main(int argc, char** argv)
     if (!strcmp(mode, "c11") || !strcmp(mode, "c12") || !strcmp(mode, "c18")) for (i = 0; i < (thorough ? SH(8000) : 700); i++) xstream_history(thorough);
     harness_done();
     stat_u("calls", n_calls); stat_u("blocks_checked", n_blocks); stat_u("limited_output_failures", n_fail_ret0); stat_u("saveDict", n_saves); stat_u("loadDict", n_loads); stat_u("attach", n_attach);
-    stat_u("resets", n_resets); stat_u("fastReset_oneshots", n_oneshots); stat_u("continue_destSize", n_destsize); stat_u("ring_wraps", n_wraps); stat_u("streams_beyond_2GiB", n_renorm); stat_u("fastReset_histories", n_fr_hist); stat_u("contiguous_stream_sessions", n_cs_hist); stat_u("contiguous_stream_calls", n_cs_calls); stat_u("contiguous_stream_sessions_on_reused_stream", n_cs_reused); stat_u("contiguous_stream_sessions_starting_with_stale_table", n_cs_stale); stat_u("contiguous_stream_sessions_ended_by_failure", n_cs_failed); stat_u("fastReset_history_calls", n_fr_calls); stat_u("hc_contexts_reused_beyond_1GiB", n_hc_wraps); stat_u("placed_stream_lives", n_xs_hist); stat_u("placed_stream_lives_through_2GiB_rescale", n_xs_renorm); stat_u("placed_stream_ops", n_xs_ops); stat_u("placed_stream_compress_contiguous", n_xs_contig); stat_u("placed_stream_compress_apart", n_xs_apart); stat_u("placed_stream_compress_overlapping_dictionary", n_xs_inside); stat_u("placed_stream_saveDict", n_xs_save); stat_u("placed_stream_loadDict", n_xs_load); stat_u("placed_stream_reset", n_xs_reset); stat_u("placed_stream_attach", n_xs_attach); stat_u("placed_stream_compress_with_attached_dictionary", n_xs_attached_calls); stat_u("placed_stream_lives_ended_by_failure", n_xs_failed); stat_u("records", g_nrecords);
+    stat_u("resets", n_resets); stat_u("fastReset_oneshots", n_oneshots); stat_u("continue_destSize", n_destsize); stat_u("ring_wraps", n_wraps); stat_u("streams_beyond_2GiB", n_renorm); stat_u("fastReset_histories", n_fr_hist); stat_u("contiguous_stream_sessions", n_cs_hist); stat_u("contiguous_stream_calls", n_cs_calls); stat_u("contiguous_stream_sessions_on_reused_stream", n_cs_reused); stat_u("contiguous_stream_sessions_starting_with_stale_table", n_cs_stale); stat_u("contiguous_stream_sessions_ended_by_failure", n_cs_failed); stat_u("fastReset_history_calls", n_fr_calls); stat_u("hc_contexts_reused_beyond_1GiB", n_hc_wraps); stat_u("placed_stream_lives", n_xs_hist); stat_u("placed_stream_lives_through_2GiB_rescale", n_xs_renorm); stat_u("placed_stream_ops", n_xs_ops); stat_u("placed_stream_compress_contiguous", n_xs_contig); stat_u("placed_stream_compress_apart", n_xs_apart); stat_u("placed_stream_compress_overlapping_dictionary", n_xs_inside); stat_u("placed_stream_saveDict", n_xs_save); stat_u("placed_stream_loadDict", n_xs_load); stat_u("placed_stream_reset", n_xs_reset); stat_u("placed_stream_periodic_continuation_blocks", n_xs_periodic); stat_u("placed_stream_attach", n_xs_attach); stat_u("placed_stream_compress_with_attached_dictionary", n_xs_attached_calls); stat_u("placed_stream_lives_ended_by_failure", n_xs_failed); stat_u("records", g_nrecords);
     stat_u("cfails", (u64)g_cfails);
     free(dictbuf); free(g_hist); free(g_ring);
     return g_cfails ? 1 : 0;
